@@ -173,6 +173,11 @@ def run_clone_check(prop, tier):
         mc_runs.append({"cfg": "CloneMC_crash_live.cfg", "distinct_states": res["stats"]["distinct"], "violated": res["violated"], "wall_s": res["wall_s"],
                         "property": "RestartCompletes (liveness under weak fairness of the clone steps)"})
         mc_violation(out, res, "CloneMC", "CloneMC_crash_live.cfg")
+        # negative configuration: a re-run that wrote nothing skips the resize - wrong after an interruption between the last write and the resize
+        neg = tlc_mc("CloneMC", "CloneMC_NEG_resize_skipped.cfg", workers=4, timeout=900, coverage=False)
+        if neg["ok"]:
+            raise ToolError("negative configuration CloneMC_NEG_resize_skipped was not rejected")
+        mc_runs.append({"cfg": "CloneMC_NEG_resize_skipped.cfg", "violated": neg["violated"], "expected_violation": True})
         # the environment the CLI writes through: tokio::fs::File (write-behind, latched errors); the pinned tree's tail is a negative configuration
         for cfg, expect_ok in (("TokioFile_regular.cfg", True), ("TokioFile_blockdev.cfg", True), ("TokioFile_NEG_noflush.cfg", False), ("TokioFile_NEG_noflush_blockdev.cfg", False)):
             r2 = tlc_mc("TokioFile", cfg, workers=2, timeout=300, coverage=False)
